@@ -257,23 +257,13 @@ func (tr *Tracer) keepOnHavoc(st *state, addr *Sym) bool {
 	if r.Kind == KAlloc && !st.escaped[r.ID] {
 		return true
 	}
-	// immutable-after-construction fields (the path to the cell must consist of such fields only)
-	a := addr
-	for a.Kind == KFieldAddr {
-		if !tr.c.immutableField(a.Field) {
-			return false
-		}
-		a = a.Args[0]
-		// look through a load of another immutable cell: *(&x.f) where f immutable
-		for a.Kind == KInit {
-			inner := a.Args[0]
-			if inner.Kind != KFieldAddr || !tr.c.immutableField(inner.Field) {
-				break
-			}
-			a = inner
-		}
+	// a cell of a field that is immutable after construction: its base is a fixed symbolic pointer, so
+	// whatever way that pointer was obtained the content cannot change (objects under construction are
+	// local allocations and handled above).
+	if addr.Kind == KFieldAddr && tr.c.immutableField(addr.Field) {
+		return true
 	}
-	return a.Kind == KParam || a.Kind == KAlloc || a.Kind == KInit && a.Args[0].Kind == KFieldAddr && tr.c.immutableField(a.Args[0].Field)
+	return false
 }
 
 // ---------------------------------------------------------------------------------------------
